@@ -10,7 +10,6 @@ import config  # noqa: E402
 
 NA = {
     "C01": "whole-process statement (hash seeds, rayon schedules, completion order): not quantifiable by a bounded symbolic execution of any fontc-owned kernel; order-independence of VariationModel::new could only be enumerated, which is testing, not solving (DESIGN.md §5)",
-    "C04": "all C04-specific code (AdvanceDeltas, GlobalMetricsBuilder::build, hvar/mvar assembly) is f64-typed code over IR containers/Context: neither the SV engine (not generic in the value type) nor Kani (needs ir::Glyph/StaticMetadata, String-keyed maps) reaches it; the arithmetic it delegates to is decided under C07, MetricsBuilder under C17",
     "C05": "sfnt directory/offsets/checksums are write-fonts' FontBuilder (third-party); fontc's part is table plumbing over Context; cross-table index ranges are properties of a whole run, which cannot be encoded",
     "C06": "GlyphOrder is an IndexSet<GlyphName> manipulated inside job bodies over Context; cmap/post are job bodies; no kernel fits CBMC (SmolStr-keyed containers exhaust memory)",
     "C09": "kerning reconciliation is ~500 lines over BTreeMap<&KernGroup, BTreeSet<&GlyphName>> with SmolStr keys: measured out of reach for CBMC; the value arithmetic is decided under C07",
@@ -33,6 +32,11 @@ TEXT = {
             "(b) CBMC proves that component offsets are rounded half-up exactly or rejected, and that composite deltas are zero-optional and never altered beyond rounding inside the 16-bit range. "
             "Simple-glyph outlines (kurbo cu2qu, write-fonts point streams and IUP) are not covered.",
             "Trusted: z3+cvc5 agreement, Sym recorder (validated against f64 runs), Kani/CBMC. Layouts are enumerated (catalog + grids), values solved."),
+    "C04": ("Kernel-level, bounded: (a) z3 and cvc5 prove for every enumerated master layout that the real deltas_with_rounding/interpolate_from_deltas (the arithmetic HVAR/VVAR/MVAR deltas are computed with) "
+            "reproduce every master within 0.5 for ALL real master values and, for integer master values (rounded advances/metrics), exactly at the default; (b) CBMC proves that the phantom points every advance delta is "
+            "read from are (0,0), (rounded advance,0) and, when vertical metrics are built, (0, rounded vertical origin), (0, origin - rounded height) with the documented fall-backs to the typo metrics; (c) CBMC proves "
+            "that each OS/2 default-location metric field is the half-up rounding of its own source metric. The HVAR/VVAR/MVAR assembly and the hhea/post/vhea fields are job bodies and are NOT covered.",
+            "Trusted: as C07 for (a); Kani/CBMC for (b), (c). Advances beyond 65535 are the recorded C19 finding."),
     "C07": ("Bounded, solver-decided. (1) For every enumerated master layout (catalog + exhaustive grids) z3 and cvc5 both prove that the real deltas_with_rounding/interpolate_from_deltas reproduce every "
             "master for ALL real/integer master values (exactly without rounding, within 0.5 with rounding, exactly at the default for integer masters), including sparse master subsets. (2) CBMC proves, for all "
             "coordinates on the k/4 grid, the region facts on the steps of the construction: Tent::new/validate (full f64), scalar_at in [0,1], regions_for, the trimming step of master_influence (valid, keeps "
